@@ -400,6 +400,19 @@ def estimate_check(ctx, res, rng):
             B.save_iterations = False
             r = B.quick_estimate()
             ests.append(dict(zip(names, [float(r.get_beta_values()[nm]) for nm in names])))
+            # estimates requested by name, in any order and for any subset, are matched by name
+            table = r.get_estimated_parameters()
+            by_name = {nm: float(table.loc[nm, 'Value']) for nm in names}
+            import itertools
+
+            for k in (1, 2, 3):
+                for req in itertools.permutations(names, k):
+                    got = r.get_beta_values(list(req))
+                    exp = {nm: by_name[nm] for nm in req}
+                    if set(got) != set(exp) or any(abs(float(got[nm]) - exp[nm]) > 1e-12 for nm in exp):
+                        res.violate('results.get_beta_values(names) does not match estimates by name', {'request': list(req), 'all_names': names},
+                                    {k2: float(v) for k2, v in got.items()}, exp, where='bioResults.get_beta_values')
+                        break
     a = [ests[0][k] for k in ['b1', 'b2', 'b3']]
     b = [ests[1][k] for k in ['p9', 'p5', 'p1']]
     case = {'estimate': 'linear regression', 'names': [['b1', 'b2', 'b3'], ['p9', 'p5', 'p1']]}
@@ -421,14 +434,13 @@ def check(ctx) -> Result:
     rng = ctx.rng
     for c in CORPUS:
         check_spec(ctx, res, c, rng)
-    for _ in range(ctx.n(25, 400)):
+    for _ in range(ctx.n(80, 600)):
         check_spec(ctx, res, gen_spec(rng), rng)
         if len(res.violations) > 10:
             break
     duplicates_check(ctx, res, rng)
-    if not ctx.quick:
-        for _ in range(3):
-            estimate_check(ctx, res, rng)
+    for _ in range(ctx.n(1, 3)):
+        estimate_check(ctx, res, rng)
     ctx.batch.flush()
     return res
 
